@@ -55,13 +55,29 @@ def _model_pam(model):
 # ----------------------------------------------------------------------------------------------------------------------
 
 
-def job_perm(label, n, Kc, empty_col=False, timeout_q=20.0, max_paths=1500):
-    """all sample permutations x all cluster permutations in ONE symbolic run per path"""
+def _long_sigmas(N):
+    """sample permutations of a long input: reversal, rotations that move rows across any block boundary, an interleaving"""
+    idn = list(range(N))
+    out = [idn[::-1], idn[1:] + idn[:1], idn[N // 3:] + idn[:N // 3], idn[::2] + idn[1::2]]
+    return [tuple(s) for s in out]
+
+
+def job_perm(label, n, Kc, empty_col=False, timeout_q=20.0, max_paths=1500, long_n=None):
+    """all sample permutations x all cluster permutations in ONE symbolic run per path.
+    long_n: the input has long_n rows drawn by a fixed pattern from n distinct symbolic rows (see checks.c01.long_pattern)
+    and four structured permutations of the long_n positions are compared instead of all n! ones."""
     loader.install()
     res = _new()
     st = {}
     sig_list = list(itertools.permutations(range(n)))
     tau_list = list(itertools.permutations(range(Kc)))
+    pattern = None
+    n_small = n
+    if long_n:
+        from .c01 import long_pattern
+        pattern = long_pattern(long_n, n)
+        sig_list = [tuple(range(long_n))] + _long_sigmas(long_n)
+        n = long_n
 
     def setup():
         stub, gem, kind, ovo = _mk(label)
@@ -78,6 +94,10 @@ def job_perm(label, n, Kc, empty_col=False, timeout_q=20.0, max_paths=1500):
             P[:, :Kc - 1] = P0
             for i in range(n):
                 P[i, Kc - 1] = K(0)
+        elif pattern is not None:
+            P, base, A = cg.sym_inputs(kind, n_small, Kc, eps=gem.epsilon)
+            idx = np.asarray(pattern)
+            P, A = P[idx], (None if A is None else A[np.ix_(idx, idx)])
         else:
             P, base, A = cg.sym_inputs(kind, n, Kc, eps=gem.epsilon)
         st.update(gem=gem, kind=kind, ovo=ovo)
@@ -101,13 +121,13 @@ def job_perm(label, n, Kc, empty_col=False, timeout_q=20.0, max_paths=1500):
         return S, G, outs
 
     ex = Explorer(max_paths=max_paths)
-    tagbase = f"perm{'-emptycol' if empty_col else ''}/{label}/n{n}K{Kc}"
+    tagbase = f"perm{'-emptycol' if empty_col else ''}/{label}/n{n}K{Kc}" + (f"/rows{n_small}" if pattern else "")
     for out, pc, trace in ex.run(body, setup):
         res["paths"] += 1
         tag = f"{tagbase}/path{res['paths']}"
         if isinstance(out, PathError):
             res["obligations"].append({"name": tag + "/path-error", "verdict": "inconclusive", "how": repr(out)[:300]})
-            _concrete_fallback(res, label, n, Kc, pc, "perm")
+            _concrete_fallback(res, label, n_small, Kc, pc, "perm", **({"pattern": pattern, "sigma": list(sig_list[1])} if pattern else {}))
             continue
         S, G, outs = out
         v, wmodel = harness.reachable(pc, timeout_s=8.0)
@@ -121,7 +141,7 @@ def job_perm(label, n, Kc, empty_col=False, timeout_q=20.0, max_paths=1500):
         for sg, tau, S2, G2 in outs:
             S2 = _scalar(S2)
             G2 = np.asarray(G2, dtype=object)
-            ptag = f"{tag}/sigma{list(sg)}tau{list(tau)}"
+            ptag = f"{tag}/sigma{list(sg) if not pattern else 'L%d' % sig_list.index(sg)}tau{list(tau)}"
             obs = [("score invariant", S2 - S)] if not (harness.nonfinite(S) or harness.nonfinite(S2)) else []
             Gp = G[list(sg)][:, list(tau)]
             for i in range(n):
@@ -138,13 +158,15 @@ def job_perm(label, n, Kc, empty_col=False, timeout_q=20.0, max_paths=1500):
                 res["obligations"].append(_strip(o))
                 if o["verdict"] == "sat":
                     rep = None
-                    for cand in cg.candidate_models(o.get("model"), n, (Kc - 1 if empty_col else Kc), pc) if o.get("model") else []:
-                        r2 = {"kind": "perm", "label": label, "n": n, "K": Kc, "sigma": list(sg), "tau": list(tau), "empty_col": empty_col, "model": cand}
+                    for cand in cg.candidate_models(o.get("model"), n_small, (Kc - 1 if empty_col else Kc), pc) if o.get("model") else []:
+                        r2 = {"kind": "perm", "label": label, "n": n_small, "K": Kc, "sigma": list(sg), "tau": list(tau), "empty_col": empty_col, "model": cand}
+                        if pattern:
+                            r2["pattern"] = pattern
                         if replay(r2):
                             rep = r2
                             break
                     if rep is not None:
-                        res["violations"].append({"signature": f"{PROP}:{label}:perm", "what": f"{label}: score/gradient not invariant under permutation sigma={list(sg)} tau={list(tau)}"
+                        res["violations"].append({"signature": f"{PROP}:{label}:perm", "what": f"{label}: score/gradient not invariant under permutation sigma={list(sg) if not pattern else 'of %d rows' % n} tau={list(tau)}"
                                                   + (" with an empty cluster" if empty_col else ""), "replay": rep})
                         break
                     res["obligations"][-1]["verdict"] = "inconclusive"
@@ -459,7 +481,8 @@ def _concrete_fallback(res, label, n, Kc, pc, kind, **kw):
         return False
     rep = dict(kind=kind, label=label, n=n, K=Kc, model=_model_pam(model), **kw)
     if kind == "perm":
-        rep.update(sigma=list(range(n))[::-1], tau=list(range(Kc))[::-1], empty_col=False)
+        rep.update(tau=list(range(Kc))[::-1], empty_col=False)
+        rep.setdefault("sigma", list(range(n))[::-1])
     try:
         bad = replay(rep)
     except Exception as e:
@@ -501,8 +524,13 @@ def replay(rep, verbose=False):
     P0, A0 = cg.concrete_inputs(model, n, Kc, gk)
     with np.errstate(all="ignore"):
         for A in cg.affinity_candidates(gk, n, A0):
+            if rep.get("pattern"):
+                idx = np.asarray(rep["pattern"])
+                P0l, A = P0[idx], (None if A is None else A[np.ix_(idx, idx)])
+            else:
+                P0l = P0
             if kind == "perm":
-                P = P0
+                P = P0l
                 if rep.get("empty_col"):
                     P = np.concatenate([cg.concrete_inputs(model, n, max(Kc - 1, 2), gk)[0][:, :Kc - 1] if Kc > 2 else np.ones((n, 1)), np.zeros((n, 1))], axis=1)
                 sg, tau = rep["sigma"], rep["tau"]
@@ -561,6 +589,12 @@ def jobs(tier):
         for (n, Kc) in (shapes if not q else [(2, 2), (2, 3)] if lab in ("TV-ovo", "MMD-ovo", "H2-ovo") else shapes):
             out.append({"name": f"perm/{lab}/n{n}K{Kc}", "target": "checks.c13:job_perm", "kwargs": dict(label=lab, n=n, Kc=Kc, timeout_q=20 if q else 120),
                         "timeout": 240 if q else 2400})
+        if cg.CLASSES[lab][2:][0] != "w":
+            for N in ([67] if q else [67, 300]):
+                if cg.CLASSES[lab][2:][0] == "mmd" and (N > 150 or q):
+                    continue   # N^2 kernel entries per evaluation, 9 evaluations: thorough tier only (C01 runs the long MMD score job in quick)
+                out.append({"name": f"perm-long/{lab}/N{N}/rows2K2", "target": "checks.c13:job_perm", "kwargs": dict(label=lab, n=2, Kc=2, long_n=N, timeout_q=20 if q else 120),
+                            "timeout": 300 if q else 2400})
         out.append({"name": f"perm-emptycol/{lab}/n2K3", "target": "checks.c13:job_perm", "kwargs": dict(label=lab, n=2, Kc=3, empty_col=True), "timeout": 240 if q else 2400})
         out.append({"name": f"indep/{lab}/n2K2", "target": "checks.c13:job_indep", "kwargs": dict(label=lab, n=2, Kc=2), "timeout": 120})
         out.append({"name": f"indep/{lab}/n3K3", "target": "checks.c13:job_indep", "kwargs": dict(label=lab, n=3, Kc=3), "timeout": 240})
